@@ -61,7 +61,7 @@ def unbin_mods(bmods):
                 it["globals"] = [dict(a, name=_s(a["name"]), hr=_s(a["hr"])) for a in it["globals"]]
                 it["insns"] = [I if I["op"] == "label" else {"op": I["op"], "ops": [unbin_op(o) for o in I["ops"]]} for I in it["insns"]]
             items.append(it)
-        out.append({"name": _s(m["name"]), "items": items})
+        out.append({"name": _s(m["name"]), "tmp": m.get("tmp", 0), "items": items})
     return out
 
 
@@ -156,6 +156,7 @@ BIN_PROBES = {
     "pdata": ("bin:data_p_rejected", lambda fs: fs[0].stage == "read" and "data_type_p_does_not_correspond" in fs[0].sig),
     "prop": ("bin:property_insns_rejected", lambda fs: fs[0].stage == "read" and "wrong_insn_code" in fs[0].sig),
     "undef_mem": ("bin:undef_mem_type", lambda fs: fs[0].stage == "read" and "wrong_memory_type" in fs[0].sig),
+    "trail_label": ("bin:trailing_label_rejected", lambda fs: fs[0].stage == "read" and "endfunc_should_have_no_labels" in fs[0].sig),
     "globals": ("bin:global_var_rejected", lambda fs: fs[0].stage == "read" and "wrong_string_num" in fs[0].sig),
 }
 LD_KEY = "bin:ldouble_padding"
@@ -239,7 +240,7 @@ def big_env(tier):
 
 
 def many_imports(n):
-    return {"mods": [{"name": "m", "items": [{"k": "import", "name": "i%06d" % i} for i in range(n)]}]}
+    return {"mods": [{"name": "m", "tmp": 0, "items": [{"k": "import", "name": "i%06d" % i} for i in range(n)]}]}
 
 
 def per_module_io(exe, cases):
